@@ -83,7 +83,11 @@ for f in sorted(glob.glob('integration_tests/sqlite_*.l')):
     w.step_budget = 0
     with sqlworld.Installed(m.sqlite3_logica, w):
       with lrun.muted():
-        got = m.sqlite3_logica.RunSqlScript([e.preamble] + e.defines_and_exports + [e.main_predicate_sql], 'artistictable')
+        if e.iterations:
+          # an iterative plan only runs as a workflow (the script path is a documented TODO)
+          got = m.run_in_terminal.Run(f, 'Test', display_mode='silent')
+        else:
+          got = m.sqlite3_logica.RunSqlScript([e.preamble] + e.defines_and_exports + [e.main_predicate_sql], 'artistictable')
     out[f] = (got == open(golden).read())
   except Exception as ex:
     out[f] = 'ERR %%s: %%s' %% (type(ex).__name__, str(ex)[:80])
@@ -174,6 +178,7 @@ def main(tier):
     which = ['determinism', 'calibration'] + (['sensitivity'] if tier == 'thorough' else [])
   select = os.environ.get('LSIM_MUTANTS')
   select = set(select.split(',')) if select else None
+  os.makedirs(runner.out_dir(), exist_ok=True)
   path = os.path.join(runner.out_dir(), 'selftest_results.json')
   results = {}
   if os.path.exists(path):
